@@ -39,6 +39,7 @@ from ..schema import (
     SchemaVisitor,
     UnionType,
 )
+from ..schema.schema import _build_type_map
 from ..utilities import coerce_argument_values
 
 
@@ -215,8 +216,13 @@ class _SchemaDirectivesApplicationVisitor(SchemaVisitor):
             yield schema_directive_cls(args)
 
     def on_schema(self, schema: Schema) -> Schema:
-        # Make sure the schema has all the definitions.
+        # Make sure the schema has all the definitions...
         schema.directives.update({n: d for n, (d, _) in self._defs.items()})
+        # ... and the types of their arguments: a definition given inline may
+        # use types (an enum, an input object) the schema does not know yet.
+        _build_type_map(
+            [], (d for d, _ in self._defs.values()), _type_map=schema.types
+        )
 
         for sd in self._collect_schema_directives(schema, "SCHEMA"):
             schema = sd.on_schema(schema)
